@@ -224,3 +224,35 @@ func CHUNK_JSONLong(h *rt.H) {
 	}
 	chunkCheck(h, jsonCodec, doc, mask)
 }
+
+// CHUNK_JSONLiteral (C02, C04): null / true / false with one byte replaced by an
+// arbitrary byte (so mostly misspelled, sometimes intact), at top level, as array
+// element and as member value, followed by a further value; one cut at every
+// position, or every byte its own chunk. The chunked runs report what the one-shot
+// run reports (a misspelled literal is refused wherever the boundary falls).
+func CHUNK_JSONLiteral(h *rt.H) {
+	lit := []byte([]string{"null", "true", "false"}[h.Choose("lit", 0, 2)])
+	pos := h.Choose("pos", 0, len(lit)-1)
+	lit[pos] = h.U8("x")
+	var doc []byte
+	switch h.Choose("ctx", 0, 3) {
+	case 0:
+		doc = lit
+	case 1:
+		doc = append(append([]byte("["), lit...), []byte(",1]")...)
+	case 2:
+		doc = append(append([]byte(`{"a":`), lit...), []byte(`,"b":2}`)...)
+	case 3:
+		doc = append(append([]byte("[1, "), lit...), ' ', ']')
+	}
+	n := len(doc)
+	cuts := make([]bool, n)
+	if c := h.Choose("cutpos", 0, n-1); c >= n-1 {
+		for i := range cuts {
+			cuts[i] = true
+		}
+	} else {
+		cuts[c] = true
+	}
+	chunkCheck(h, jsonCodec, doc, cuts)
+}
